@@ -18,9 +18,10 @@ and RX1 (`c1`) and between RX1 and RX2 (`c2`) go to `handle_rxc` in the middle o
   it leaves is reached from the state after `send` by exactly those acts (`Acts`: `acceptState` /
   `timeoutState` of `Lemmas/Cycle.lean`, composed).  Every history-level property of the extended
   events then needs ONE lemma: its relation is preserved along `Acts`.
-* A device that is joining (`joinC`) hears Class C frames as `Err(NotJoined)`, which ends the procedure
-  like a radio fault at that point: `stepC` on `joinC` is `step` on the plain `joinOtaa` with the fault
-  position `joinFaultC` (`stepC_joinC_plain`); `uplinkC` without a session is refused.
+* A device that is joining (`joinC`) ignores what it hears on the RXC parameters (`handle_rxc` answers
+  `Err(NotJoined)`, which `between_windows` takes as `NoUpdate`): `stepC` on `joinC` is `step` on the plain
+  `joinOtaa` with the fault position `joinFaultC` (`stepC_joinC_plain`); `uplinkC` without a session is
+  refused.
 -/
 open Spec.Freshness
 
@@ -673,14 +674,30 @@ theorem stepC_base {σ} (g : Rng σ) (ms ms' : MacState × σ) (e : Ev) (out : O
   obtain ⟨rfl, rfl⟩ := h
   exact ⟨hs, rfl⟩
 
-/-! ## a device that is joining: Class C frames end the procedure (`Err(NotJoined)`) -/
+/-! ## a device that is joining: frames heard on the RXC parameters change nothing
+
+`Mac::handle_rxc` answers `Err(NotJoined)` while there is no session; `between_windows` takes that as
+`NoUpdate` and goes on listening (repair C07-join-aborted-by-rxc-frame: it used to propagate the error,
+so that one stray frame aborted the join). -/
 
 /-- what a window reports for an accepted JoinAccept -/
 def jsOut : RxOut := { resp := .joinSuccess, downlink := none }
 
+/-- whatever a device without a session hears on the RXC parameters: no report, no change -/
+theorem rxcs_notJoined (m : MacState) (hst : ∀ s, m.st ≠ .joined s) (mp : Nat) (cs : List (RxView × Int)) :
+    rxcs m mp cs = .ok ([], true, m) := by
+  induction cs with
+  | nil => rfl
+  | cons c rest ih =>
+    obtain ⟨v, snr⟩ := c
+    unfold rxcs
+    rw [macHandleRxc_notJoined m hst v mp snr]
+    simp only [bind, Except.bind, pure, Except.pure]
+    exact ih
+
 theorem between_notJoined (cc : Bool) (m : MacState) (hst : ∀ s, m.st ≠ .joined s) (cs : List (RxView × Int))
     (os : List RxOut) (fin : Bool) (m1 : MacState) (h : between cc m cs = .ok (os, fin, m1)) :
-    os = [] ∧ m1 = m ∧ fin = !(cc && !cs.isEmpty) := by
+    os = [] ∧ m1 = m ∧ fin = true := by
   unfold between at h
   cases cc with
   | false =>
@@ -690,23 +707,23 @@ theorem between_notJoined (cc : Bool) (m : MacState) (hst : ∀ s, m.st ≠ .joi
   | true =>
     simp only [if_true] at h
     obtain ⟨rf, _, h⟩ := Except.bind_eq_ok h
-    cases cs with
-    | nil =>
-      simp only [rxcs, pure, Except.pure, Except.ok.injEq, Prod.mk.injEq] at h
-      obtain ⟨rfl, rfl, rfl⟩ := h
-      exact ⟨rfl, rfl, rfl⟩
-    | cons c rest =>
-      obtain ⟨v, snr⟩ := c
-      unfold rxcs at h
-      rw [macHandleRxc_notJoined m hst v _ snr] at h
-      simp only [bind, Except.bind, pure, Except.pure, Except.ok.injEq, Prod.mk.injEq] at h
-      obtain ⟨rfl, rfl, rfl⟩ := h
-      exact ⟨rfl, rfl, rfl⟩
+    rw [rxcs_notJoined m hst] at h
+    simp only [Except.ok.injEq, Prod.mk.injEq] at h
+    obtain ⟨rfl, rfl, rfl⟩ := h
+    exact ⟨rfl, rfl, rfl⟩
+
+/-- the frames heard on the RXC parameters by a device without a session do not matter at all -/
+theorem between_notJoined_eq (cc : Bool) (m : MacState) (hst : ∀ s, m.st ≠ .joined s) (cs cs' : List (RxView × Int)) :
+    between cc m cs = between cc m cs' := by
+  unfold between
+  cases cc with
+  | false => rfl
+  | true => simp only [if_true, rxcs_notJoined m hst]
 
 theorem winC_otaa (cc : Bool) (m : MacState) (o : OtaaState) (hst : m.st = .otaa o) (cs : List (RxView × Int))
     (f : Option (RxView × Int)) (mp : Nat) (eb ea : Bool) (r : Option (Option RxOut)) (os : List RxOut) (m' : MacState)
     (h : winC cc m cs f mp eb ea = .ok (r, os, m')) :
-    if ((cc && !cs.isEmpty) || eb) = true then r = none ∧ os = [] ∧ m' = m
+    if eb = true then r = none ∧ os = [] ∧ m' = m
     else match joinAcc f with
       | some j => otaaAccept m j = .ok m' ∧ r = (if ea then none else some (some jsOut)) ∧ os = [jsOut]
       | none => m' = m ∧ r = (if ea then none else some none) ∧ os = [] := by
@@ -716,8 +733,8 @@ theorem winC_otaa (cc : Bool) (m : MacState) (o : OtaaState) (hst : m.st = .otaa
   subst hos hfin
   have hm1' := hm1.symm
   subst hm1'
-  simp only [Bool.not_not] at h
-  by_cases hcut : ((cc && !cs.isEmpty) || eb) = true
+  simp only [Bool.not_true, Bool.false_or] at h
+  by_cases hcut : eb = true
   · simp only [hcut, if_true, pure, Except.pure, Except.ok.injEq, Prod.mk.injEq] at h ⊢
     exact ⟨h.1.symm, h.2.1.symm, h.2.2.symm⟩
   · simp only [hcut, Bool.false_eq_true, if_false] at h ⊢
@@ -739,15 +756,14 @@ theorem winC_otaa (cc : Bool) (m : MacState) (o : OtaaState) (hst : m.st = .otaa
         exact ⟨h.2.2.symm, h.1.symm, h.2.1.symm⟩
 
 /-- **the fault position, in the terms of `Model/History.lean`, of a join procedure of the async
-front-end**: the number of windows served before it was cut — by a radio fault, or by a frame heard on
-the RXC parameters (`Err(NotJoined)`) — `none` if it ran to its end -/
-def joinFaultC (cc : Bool) (fault : Option FaultPos) (c1 : List (RxView × Int)) (rx1 : Option (RxView × Int))
-    (c2 : List (RxView × Int)) : Option Nat :=
+front-end**: the number of windows served before a radio fault cut it; `none` if it ran to its end (or
+RX1 produced the response before the fault was reached) -/
+def joinFaultC (fault : Option FaultPos) (rx1 : Option (RxView × Int)) : Option Nat :=
   if fault = some .tx then some 0
-  else if ((cc && !c1.isEmpty) || fault == some .before1) = true then some 0
+  else if fault = some .before1 then some 0
   else if fault = some .close1 then some 1
   else if (joinAcc rx1).isSome then none
-  else if ((cc && !c2.isEmpty) || fault == some .before2) = true then some 1
+  else if fault = some .before2 then some 1
   else if fault = some .close2 then some 2
   else none
 
@@ -755,11 +771,11 @@ theorem cycleC_otaa (cc : Bool) (m : MacState) (o : OtaaState) (hst : m.st = .ot
     (c1 : List (RxView × Int)) (rx1 : Option (RxView × Int)) (c2 : List (RxView × Int)) (rx2 : Option (RxView × Int))
     (mp1 mp2 : Nat) (fin : ProcEnd) (heard : List RxOut) (m' : MacState)
     (h : cycleC cc m fault c1 rx1 c2 rx2 mp1 mp2 = .ok (fin, heard, m')) :
-    (match joinRes (joinFaultC cc fault c1 rx1 c2) rx1 rx2 with
+    (match joinRes (joinFaultC fault rx1) rx1 rx2 with
      | some j => otaaAccept m j = .ok m' ∧ heard = [jsOut]
      | none => m' = m ∧ heard = []) ∧
-    fin = (if (joinFaultC cc fault c1 rx1 c2).isSome then .cut
-           else match joinRes (joinFaultC cc fault c1 rx1 c2) rx1 rx2 with
+    fin = (if (joinFaultC fault rx1).isSome then .cut
+           else match joinRes (joinFaultC fault rx1) rx1 rx2 with
              | some _ => .resp jsOut
              | none => .complete) := by
   unfold cycleC at h
@@ -772,13 +788,15 @@ theorem cycleC_otaa (cc : Bool) (m : MacState) (o : OtaaState) (hst : m.st = .ot
     obtain ⟨⟨r1, h1, ma⟩, hw1, hk⟩ := Except.bind_eq_ok h
     clear h
     have hw := winC_otaa cc m o hst c1 rx1 mp1 _ _ r1 h1 ma hw1
-    by_cases hcut1 : ((cc && !c1.isEmpty) || fault == some .before1) = true
-    · simp only [hcut1, if_true] at hw ⊢
+    by_cases hcut1 : fault = some .before1
+    · subst hcut1
+      simp only [beq_self_eq_true, if_true] at hw ⊢
       obtain ⟨rfl, rfl, rfl⟩ := hw
       simp only [pure, Except.pure, Except.ok.injEq, Prod.mk.injEq] at hk
       obtain ⟨rfl, rfl, rfl⟩ := hk
       simp [joinRes, specJoinFaulted]
-    · simp only [hcut1, Bool.false_eq_true, if_false] at hw ⊢
+    · have heb1 : (fault == some .before1) = false := by simpa using hcut1
+      simp only [heb1, Bool.false_eq_true, if_false, hcut1] at hw ⊢
       by_cases hc1 : fault = some .close1
       · subst hc1
         simp only [beq_self_eq_true, if_true] at hw ⊢
@@ -811,13 +829,15 @@ theorem cycleC_otaa (cc : Bool) (m : MacState) (o : OtaaState) (hst : m.st = .ot
           obtain ⟨⟨r2, h2, mb⟩, hw2, hk2⟩ := Except.bind_eq_ok hk
           clear hk
           have hw' := winC_otaa cc ma o hst c2 rx2 mp2 _ _ r2 h2 mb hw2
-          by_cases hcut2 : ((cc && !c2.isEmpty) || fault == some .before2) = true
-          · simp only [hcut2, if_true] at hw' ⊢
+          by_cases hcut2 : fault = some .before2
+          · subst hcut2
+            simp only [beq_self_eq_true, if_true] at hw' ⊢
             obtain ⟨rfl, rfl, rfl⟩ := hw'
             simp only [pure, Except.pure, Except.ok.injEq, Prod.mk.injEq] at hk2
             obtain ⟨rfl, rfl, rfl⟩ := hk2
             simp [joinRes, specJoinFaulted, hj]
-          · simp only [hcut2, Bool.false_eq_true, if_false] at hw' ⊢
+          · have heb2 : (fault == some .before2) = false := by simpa using hcut2
+            simp only [heb2, Bool.false_eq_true, if_false, hcut2] at hw' ⊢
             by_cases hc2 : fault = some .close2
             · subst hc2
               simp only [beq_self_eq_true, if_true] at hw' ⊢
@@ -850,10 +870,10 @@ theorem cycleC_otaa (cc : Bool) (m : MacState) (o : OtaaState) (hst : m.st = .ot
                 obtain ⟨rfl, rfl, rfl⟩ := hk2
                 simp [joinRes, specJoin, hj, hj2]
 
-/-- the plain event a join procedure of the async front-end amounts to -/
-def joinPlain (cc : Bool) (fault : Option FaultPos) (c1 : List (RxView × Int)) (rx1 : Option (RxView × Int))
-    (c2 : List (RxView × Int)) (rx2 : Option (RxView × Int)) : Ev :=
-  .joinOtaa (joinFaultC cc fault c1 rx1 c2) rx1 rx2 0 0
+/-- the plain event a join procedure of the async front-end amounts to: the frames heard on the RXC
+parameters between the windows play no part -/
+def joinPlain (fault : Option FaultPos) (rx1 rx2 : Option (RxView × Int)) : Ev :=
+  .joinOtaa (joinFaultC fault rx1) rx1 rx2 0 0
 
 /-- **`join` + receive procedure of the async front-end (both classes) IS the plain `joinOtaa` with
 the fault position `joinFaultC`**: same state, same generator state, same output; every frame handled
@@ -861,8 +881,8 @@ reported `JoinSuccess` or nothing -/
 theorem stepC_joinC_plain {σ} (g : Rng σ) (ms ms' : MacState × σ) (cc : Bool) (fault : Option FaultPos)
     (c1 : List (RxView × Int)) (rx1 : Option (RxView × Int)) (c2 : List (RxView × Int)) (rx2 : Option (RxView × Int)) (oc : OutC)
     (h : stepC g ms (.joinC cc fault c1 rx1 c2 rx2) = .ok (ms', oc)) :
-    step g ms (joinPlain cc fault c1 rx1 c2 rx2) = .ok (ms', oc.out) ∧
-      oc.heard = (match joinRes (joinFaultC cc fault c1 rx1 c2) rx1 rx2 with | some _ => [jsOut] | none => []) := by
+    step g ms (joinPlain fault rx1 rx2) = .ok (ms', oc.out) ∧
+      oc.heard = (match joinRes (joinFaultC fault rx1) rx1 rx2 with | some _ => [jsOut] | none => []) := by
   obtain ⟨m, s⟩ := ms
   simp only [stepC] at h
   obtain ⟨⟨o, m1, s1⟩, hjoin, h⟩ := Except.bind_eq_ok h
@@ -872,7 +892,7 @@ theorem stepC_joinC_plain {σ} (g : Rng σ) (ms ms' : MacState × σ) (cc : Bool
   obtain ⟨hres, hfin⟩ := cycleC_otaa cc m1 _ hst1 fault c1 rx1 c2 rx2 _ _ fin heard m2 hcy
   unfold joinPlain step
   simp only [hjoin, bind, Except.bind]
-  cases hk : joinFaultC cc fault c1 rx1 c2 with
+  cases hk : joinFaultC fault rx1 with
   | some k =>
     simp only [hk, Option.isSome_some, if_true] at hres hfin ⊢
     subst hfin
